@@ -156,6 +156,7 @@ func init() {
 			{Name: "files", TShards: 4, Run: c03Files},
 			{Name: "flags", Run: c03Flags},
 			{Name: "long", TShards: 4, Run: c03Long},
+			{Name: "numbers", QShards: 4, TShards: 12, Run: c03Numbers},
 			{Name: "sizes", TShards: 6, Run: c03Sizes},
 			{Name: "prefixes", Run: prefixUnit("sam", false, 0)},
 			{Name: "edges", Run: edgeUnit("sam")},
@@ -456,5 +457,79 @@ func c03Sizes(c *Ctx) {
 			})
 			idx++
 		}
+	}
+}
+
+// c03Numbers: the numeric fields and tags swept systematically — one record per
+// decimal exponent (−330 … 309) whose 3000 `f` tags are short decimal numbers of
+// every digit count 1..17 at that exponent, whose `i` tags and integer fields
+// (Flag, Pos, Mapq, Pnext, Tlen) are integers of every digit count, next to
+// powers of two and of ten. Compared field by field (floats by their bits).
+func c03Numbers(c *Ctx) {
+	per := c.N(60, 170) // f tags per digit count and record (17 x per <= 3224 tag names minus the i tags)
+	idx := int64(0)
+	var names []string
+	for _, a := range tagFirst {
+		for _, b := range tagSecond {
+			names = append(names, string([]rune{a, b}))
+		}
+	}
+	for exp := -330; exp <= 309; exp++ {
+		c.Case(idx, func(k *K) {
+			r := k.Rand()
+			s := genSAM(r)
+			s.Flag, s.Pos, s.Mapq, s.Pnext, s.Tlen = sam.Flag(digitInt(r)), digitInt(r), digitInt(r), digitInt(r), digitInt(r)
+			s.Tags = map[string]any{}
+			perm := r.Perm(len(names))
+			ni := 0
+			for digits := 1; digits <= 17; digits++ {
+				for j := 0; j < per; j++ {
+					s.Tags[names[perm[ni]]] = decimalFloat(r, digits, exp-digits+1)
+					ni++
+				}
+			}
+			for j := 0; j < 200; j++ {
+				s.Tags[names[perm[ni]]] = digitInt(r)
+				ni++
+			}
+			k.Input("decimal_exponent", exp)
+			want := samKey(s)
+			m, err := s.MarshalText()
+			if err != nil {
+				k.Failf("marshal-error", "MarshalText returned %v", err)
+				return
+			}
+			cnt := 0
+			for got, err := range sam.Reader(bytes.NewReader(m)) {
+				cnt++
+				if err != nil || cnt > 1 {
+					k.Failf("roundtrip", "a record with %d numeric tags around 1e%d does not read back: item %d, err=%v", len(s.Tags), exp, cnt, err)
+					return
+				}
+				if g := samKey(got); g != want {
+					// name the first tag that differs
+					for name, v := range s.Tags {
+						if gv, ok := got.Tags[name]; !ok || tagKey(gv) != tagKey(v) {
+							k.Input("tag", name)
+							k.Failf("roundtrip", "tag %s = %s reads back as %s (written line has %d bytes)", name, tagKey(v), tagKey(gv), len(m))
+							return
+						}
+					}
+					k.Failf("roundtrip", "an integer field does not read back: Flag %d Pos %d Mapq %d Pnext %d Tlen %d -> %d %d %d %d %d", s.Flag, s.Pos, s.Mapq, s.Pnext, s.Tlen, got.Flag, got.Pos, got.Mapq, got.Pnext, got.Tlen)
+					return
+				}
+			}
+			if cnt != 1 {
+				k.Failf("roundtrip", "decoded %d records from one written line", cnt)
+				return
+			}
+			k.Count("records_roundtripped", 1)
+			k.Count("tags_roundtripped", int64(len(s.Tags)))
+			k.Count("decimal_float_tags", int64(17*per))
+			k.Count("digit_int_tags", 200)
+			k.Evals(int64(len(s.Tags)))
+			k.Nontrivial([]byte(fmt.Sprint("numbers", exp)))
+		})
+		idx++
 	}
 }
